@@ -216,7 +216,53 @@ def standin_sweeps_roundtrip(tier, seed):
     return dict(function="cirq-google/cirq_google/api/v2/sweeps.py", case="sweep-roundtrip", bound="18 sweep shapes incl. empty, single-point linspace, nested product/zip, concat, zip-longest, values with (mixed) physical units",
                 cases=cases, distinct=cases, failures=len(fails), exhaustive=False, _fails=fails[:3])
 standin_sweeps_roundtrip.prop = "C16"
-STANDINS = [standin_bits_native, standin_circuit_roundtrip, standin_results_roundtrip, standin_sweeps_roundtrip]
+def standin_conditions_roundtrip(tier, seed):
+    """classical controls through the circuit wire format: every condition kind, every record index (first, last, explicit),
+    bit masks, controlled sub-circuits; the conditions read back must be the conditions written"""
+    import itertools
+
+    import cirq
+    import cirq_google as cg
+    import sympy
+
+    a, b = cirq.GridQubit(1, 1), cirq.GridQubit(1, 2)
+    ser = cg.CIRCUIT_SERIALIZER
+    conds = []
+    for idx in (-1, 0, 1, -2, 2):
+        conds.append(cirq.KeyCondition(cirq.MeasurementKey("m"), index=idx))
+        conds.append(cirq.BitMaskKeyCondition("m", index=idx))
+        conds.append(cirq.BitMaskKeyCondition("m", index=idx, target_value=1, equal_target=True, bitmask=1))
+        conds.append(cirq.BitMaskKeyCondition("m", index=idx, target_value=0, equal_target=False))
+    conds += [cirq.SympyCondition(sympy.Eq(sympy.Symbol("m"), 1)), cirq.SympyCondition(sympy.Symbol("m") > 0), cirq.KeyCondition(cirq.MeasurementKey("m", path=("p",)))]
+    cases, fails = 0, []
+    subs = [lambda: cirq.X(b), lambda: cirq.CircuitOperation(cirq.FrozenCircuit(cirq.X(b), cirq.Z(b) ** 0.5))]
+    for cond, mk in itertools.product(conds, subs):
+        try:
+            op = mk().with_classical_controls(cond)
+            c = cirq.Circuit(cirq.measure(a, key="m"), cirq.X(a), cirq.measure(a, key="m"), cirq.measure(a, key="m"), op)
+            msg = ser.serialize(c)
+        except (ValueError, TypeError, NotImplementedError):
+            continue  # a refusal is fine
+        cases += 1
+        try:
+            back = ser.deserialize(msg)
+        except Exception as ex:
+            fails.append(dict(args=dict(condition=repr(cond)), failed="condition-roundtrip", clause=f"deserialize(serialize(c)) raised {ex!r}"))
+            continue
+        got = [o.classical_controls for o in back.all_operations() if o.classical_controls]
+        if got != [frozenset({cond})] and got != [op.classical_controls]:
+            fails.append(dict(args=dict(condition=repr(cond), read_back=repr(got)), failed="condition-roundtrip", clause="the classical condition read back differs from the one written"))
+    seen, uniq = set(), []
+    for f in fails:
+        k = f["args"]["condition"][:30]
+        if k not in seen:
+            seen.add(k)
+            uniq.append(f)
+    return dict(function="cirq-google/cirq_google/serialization/arg_func_langs.py:condition_to_proto/condition_from_proto", case="condition-roundtrip",
+                bound="23 conditions (key / bit-mask with indices -2..2, masks, sympy, pathed key) x 2 controlled operations", cases=cases, distinct=cases, failures=len(fails),
+                exhaustive=True, _fails=uniq[:3])
+standin_conditions_roundtrip.prop = "C16"
+STANDINS = [standin_bits_native, standin_circuit_roundtrip, standin_results_roundtrip, standin_sweeps_roundtrip, standin_conditions_roundtrip]
 
 NOT_COVERED = [
     "circuit/sweep/result/device protos themselves (protobuf reflection, float32 rounding): bounded round trips only; device specifications not exercised",
